@@ -179,6 +179,7 @@ struct pend { /* decoded info about the syscall in progress */
     long force_ret;  /* used with force */
     int force;
     int kill_after;
+    int gate;
     unsigned long origlen; /* original length when shortened */
     int shortened;
 };
@@ -197,6 +198,7 @@ struct thr {
     unsigned long held_seq;
     int untimed;   /* blocked in an untimed blocking call */
     int want_release_delay_us; /* jitter */
+    int gate;      /* rule index of an A_HOLD gate this thread waits at, or -1 */
     unsigned long nsys;
 };
 
@@ -210,7 +212,7 @@ struct fdent {
     unsigned mode;
 };
 
-enum { A_FAULT = 1, A_SHORT, A_KILL, A_CLONEOK, A_NOTE, A_RETVAL };
+enum { A_FAULT = 1, A_SHORT, A_KILL, A_CLONEOK, A_NOTE, A_RETVAL, A_HOLD };
 enum { L_ONE = 1, L_MINUS1, L_HALF, L_RAND, L_CAP };
 
 struct rule {
@@ -230,7 +232,8 @@ struct rule {
     int lenpol; unsigned long lencap;
     int role;    /* -1 any */
     int minlen;  /* only shorten when len > minlen */
-    unsigned long matches, applied;
+    unsigned long matches, applied, done;
+    char until[64]; int until_idx; int count; long maxwait_ms;
 };
 
 static struct thr thr[MAXTHREADS];
@@ -382,6 +385,7 @@ static struct thr *add_thr(pid_t tid)
             memset(t, 0, sizeof *t);
             t->tid = tid; t->state = T_RUN; t->role = R_OTHER; t->parent = 0;
             t->p.rule = -1;
+            t->gate = -1;
             t->prio = rng_unit();
             nthr_live++;
             return t;
@@ -485,6 +489,9 @@ static void parse_rule(char *line)
         else if (!strcmp(k, "errno")) r->err = atoi(v);
         else if (!strcmp(k, "minlen")) r->minlen = atoi(v);
         else if (!strcmp(k, "val")) r->retval = atol(v);
+        else if (!strcmp(k, "until")) snprintf(r->until, sizeof r->until, "%s", v);
+        else if (!strcmp(k, "count")) r->count = atoi(v);
+        else if (!strcmp(k, "maxwait_ms")) r->maxwait_ms = atol(v);
         else if (!strcmp(k, "role")) r->role = role_by_name(v);
         else if (!strcmp(k, "action")) {
             if (!strcmp(v, "fault")) r->action = A_FAULT;
@@ -493,6 +500,7 @@ static void parse_rule(char *line)
             else if (!strcmp(v, "cloneok")) r->action = A_CLONEOK;
             else if (!strcmp(v, "note")) r->action = A_NOTE;
             else if (!strcmp(v, "retval")) r->action = A_RETVAL;
+            else if (!strcmp(v, "hold")) r->action = A_HOLD;
             else die("bad action %s", v);
         } else if (!strcmp(k, "len")) {
             if (!strcmp(v, "one")) r->lenpol = L_ONE;
@@ -594,7 +602,7 @@ static void decode_enter(struct thr *t, long nr, const unsigned long *a)
     p->have_path = p->have_path2 = 0;
     p->path[0] = p->path2[0] = 0;
     p->fd = p->fd2 = -1;
-    p->rule = -1; p->fault_errno = 0; p->force = 0; p->kill_after = 0; p->shortened = 0;
+    p->rule = -1; p->fault_errno = 0; p->force = 0; p->kill_after = 0; p->shortened = 0; p->gate = -1;
     if (!p->se) return;
     const struct sysent *se = p->se;
     if (se->patharg >= 0) resolve_path(t->tid, se->dirfd, se->patharg, a, p->path, &p->have_path);
@@ -818,6 +826,11 @@ static int apply_rules_enter(struct thr *t, struct user_regs_struct *regs, const
             break;
         case A_NOTE:
             p->rule = i; r->applied++; *act = "note"; *rid = r->id;
+            if (!r->when_exit) r->done++;
+            break;
+        case A_HOLD:
+            /* gate: this call may not start before rule `until` has completed `count` times */
+            r->applied++; p->gate = i; *act = "gate"; *rid = r->id;
             break;
         }
     }
@@ -861,14 +874,23 @@ static int should_hold(struct thr *t)
     return 1;
 }
 
+static unsigned long gate_timeouts = 0;
 static void decide_release(void)
 {
-    if (p_sched == S_FREE) return;
     struct timespec tn; now(&tn);
+    for (int i = 0; i < MAXTHREADS; i++) {
+        struct thr *t = &thr[i];
+        if (t->state != T_HELD || t->gate < 0) continue;
+        struct rule *g = &rules[t->gate];
+        int open = g->until_idx < 0 || rules[g->until_idx].done >= (unsigned long)(g->count ? g->count : 1);
+        int late = ts_ms(&t->held_at, &tn) > (g->maxwait_ms ? g->maxwait_ms : 300);
+        if (open || late) { if (late && !open) gate_timeouts++; t->gate = -1; resume_thr(t); }
+    }
+    if (p_sched == S_FREE) return;
     if (p_sched == S_JITTER) {
         for (int i = 0; i < MAXTHREADS; i++) {
             struct thr *t = &thr[i];
-            if (t->state == T_HELD && ts_ms(&t->held_at, &tn) * 1000.0 >= t->want_release_delay_us) resume_thr(t);
+            if (t->state == T_HELD && t->gate < 0 && ts_ms(&t->held_at, &tn) * 1000.0 >= t->want_release_delay_us) resume_thr(t);
         }
         return;
     }
@@ -877,6 +899,7 @@ static void decide_release(void)
         struct thr *best_held = NULL; double best_run = -1e18; int nrun = 0;
         for (int i = 0; i < MAXTHREADS; i++) {
             struct thr *t = &thr[i];
+            if (t->state == T_HELD && t->gate >= 0) continue;
             if (t->state == T_HELD) { if (!best_held || eff_prio(t) > eff_prio(best_held)) best_held = t; }
             else if (t->state == T_RUN) { nrun++; if (eff_prio(t) > best_run) best_run = eff_prio(t); }
         }
@@ -947,6 +970,13 @@ static void handle_syscall_stop(struct thr *t)
         /* close: forget the descriptor at *entry*.  Exit stops of different threads are not reported in kernel
            order, so another thread's openat() returning the same number may be seen before this close's exit. */
         if (t->p.se && t->p.se->nr == 3 && !t->p.fault_errno) fd_set_closed((int)a[0]);
+        if (t->p.gate >= 0) {
+            struct rule *g = &rules[t->p.gate];
+            if (g->until_idx >= 0 && rules[g->until_idx].done < (unsigned long)(g->count ? g->count : 1)) {
+                t->gate = t->p.gate; t->state = T_HELD; now(&t->held_at); t->held_seq = seq; holds++;
+                return;
+            }
+        }
         if (should_hold(t)) {
             t->state = T_HELD; now(&t->held_at); t->held_seq = seq; holds++;
             return;
@@ -958,6 +988,7 @@ static void handle_syscall_stop(struct thr *t)
         t->insys = 0;
         const char *act = NULL, *rid = NULL;
         if (p->rule >= 0) rid = rules[p->rule].id;
+        if (p->rule >= 0 && rules[p->rule].action == A_NOTE && rules[p->rule].when_exit) rules[p->rule].done++;
         if (p->fault_errno || p->force) {
             struct user_regs_struct regs;
             if (ptrace(PTRACE_GETREGS, t->tid, 0, &regs) == 0) {
@@ -1025,11 +1056,11 @@ static void write_summary(const char *fn, int exited, int status, int sig)
     fprintf(f, ",\"stops\":%lu,\"events\":%lu,\"fd_peak\":%d,\"fd_checks\":%lu,\"fd_mismatch\":%d", nstops, seq, fd_peak, fd_checks, fd_mismatch);
     fprintf(f, ",\"emfile\":%lu,\"opens\":%lu", n_emfile, n_opens);
     fprintf(f, ",\"killed_by_plan\":%d,\"kill_site\":", kill_delivered); json_str(f, kill_site);
-    fprintf(f, ",\"sched_steps\":%lu,\"holds\":%lu,\"cap_releases\":%lu", sched_steps, holds, cap_releases);
+    fprintf(f, ",\"sched_steps\":%lu,\"holds\":%lu,\"cap_releases\":%lu,\"gate_timeouts\":%lu", sched_steps, holds, cap_releases, gate_timeouts);
     fprintf(f, ",\"wall_ms\":%.1f", ts_ms(&t_start, &tn));
     fprintf(f, ",\"rules\":{");
     for (int i = 0; i < nrules; i++)
-        fprintf(f, "%s\"%s\":{\"matches\":%lu,\"applied\":%lu}", i ? "," : "", rules[i].id, rules[i].matches, rules[i].applied);
+        fprintf(f, "%s\"%s\":{\"matches\":%lu,\"applied\":%lu,\"done\":%lu}", i ? "," : "", rules[i].id, rules[i].matches, rules[i].applied, rules[i].done);
     fprintf(f, "},\"threads\":[");
     int first = 1;
     for (int i = 0; i < MAXTHREADS; i++) {
@@ -1061,6 +1092,11 @@ int main(int argc, char **argv)
     for (size_t k = 0; k < NSYS; k++) sysidx[systab[k].nr] = &systab[k];
     fdt = calloc(MAXFD, sizeof *fdt);
     if (planfn) parse_plan(planfn);
+    for (int a = 0; a < nrules; a++) {
+        rules[a].until_idx = -1;
+        if (rules[a].until[0]) for (int b2 = 0; b2 < nrules; b2++) if (!strcmp(rules[b2].id, rules[a].until)) rules[a].until_idx = b2;
+        if (rules[a].action == A_HOLD && rules[a].until_idx < 0) die("hold rule %s: unknown until=%s", rules[a].id, rules[a].until);
+    }
     rng_state = p_sched_seed * 0x9E3779B97F4A7C15ULL + 12345;
     if (p_sched == S_PCT) {
         pct_nchange = p_sched_d > 16 ? 16 : p_sched_d;
